@@ -9,7 +9,10 @@
      maps    Go maps string -> []string (Headers, QueryParams, FormData, PathParams); a map
              value is an address or nil; setters mutate the cell in place
      recs    *retryOption records (two scalars, two slices)
-     jars    cookie jars behind http.Client.Jar (in-place SetCookies)
+     jars    boxes: one mutable cell per pointer target that is updated in place - cookie jars behind
+             http.Client.Jar (SetCookies), *DumpOptions (Client.dumpOptions and the options inside the
+             running Dumper: the same box when the client's dump setters are wired to the Dumper),
+             *tls.Config (encoded [insecure; ncerts; certs...; roots...])
 
    Strings, cookies, middleware / wrapper / hook identities are tokens (nat): the harness
    numbers the finite pools it draws from.
@@ -149,14 +152,25 @@ Definition oid_eqb (a b : oid) : bool :=
      2  Transport.httpRoundTripWrappers                  -
      3  Client.udBeforeRequest                           -
      4  Client.afterResponse (user part)                 Request.afterResponse
-   map fields: 0 Headers  1 QueryParams  2 FormData  3 PathParams (both levels) *)
-Definition NSL := 5.
+   map fields: 0 Headers  1 QueryParams  2 FormData  3 PathParams (both levels)
+     5  http2 Settings (Transport.t2.Settings)           -
+     6  http2 PriorityFrames                              -  *)
+Definition NSL := 7.
 Definition NMP := 4.
 Definition F_COOKIES := 0.
 Definition F_RTW := 1.
 Definition F_TRW := 2.
 Definition F_BEFORE := 3.
 Definition F_AFTER := 4.
+Definition F_H2SET := 5.
+Definition F_H2PRIO := 6.
+
+(* pointers into the boxes besides the cookie jar *)
+Record oext := {
+  e_dopt : option nat;                 (* Client.dumpOptions *)
+  e_dumper : option nat;               (* Transport.Dump != nil: the *DumpOptions its Options wrap *)
+  e_tls : option nat }.                (* Transport.TLSClientConfig *)
+Definition oext0 : oext := {| e_dopt := None; e_dumper := None; e_tls := None |}.
 
 Record obj := {
   o_sl : list slice;
@@ -167,26 +181,30 @@ Record obj := {
   o_scal : list (val * val);           (* value-typed settings (BaseURL, Timeout, DebugLog, ...) *)
   o_jar : option nat;                  (* http.Client.Jar *)
   o_fact : bool;                       (* cookiejarFactory != nil *)
-  o_par : nat }.                       (* Request.client *)
+  o_par : nat;                         (* Request.client *)
+  o_ext : oext }.
 
 Definition obj0 : obj :=
   {| o_sl := repeat None NSL; o_mp := repeat None NMP; o_rt := None; o_chain := None; o_tchain := None;
-     o_scal := []; o_jar := None; o_fact := false; o_par := 0 |}.
+     o_scal := []; o_jar := None; o_fact := false; o_par := 0; o_ext := oext0 |}.
 
 Definition set_sl (o : obj) x := {| o_sl := x; o_mp := o_mp o; o_rt := o_rt o; o_chain := o_chain o;
-  o_tchain := o_tchain o; o_scal := o_scal o; o_jar := o_jar o; o_fact := o_fact o; o_par := o_par o |}.
+  o_tchain := o_tchain o; o_scal := o_scal o; o_jar := o_jar o; o_fact := o_fact o; o_par := o_par o; o_ext := o_ext o |}.
 Definition set_mp (o : obj) x := {| o_sl := o_sl o; o_mp := x; o_rt := o_rt o; o_chain := o_chain o;
-  o_tchain := o_tchain o; o_scal := o_scal o; o_jar := o_jar o; o_fact := o_fact o; o_par := o_par o |}.
+  o_tchain := o_tchain o; o_scal := o_scal o; o_jar := o_jar o; o_fact := o_fact o; o_par := o_par o; o_ext := o_ext o |}.
 Definition set_rt (o : obj) x := {| o_sl := o_sl o; o_mp := o_mp o; o_rt := x; o_chain := o_chain o;
-  o_tchain := o_tchain o; o_scal := o_scal o; o_jar := o_jar o; o_fact := o_fact o; o_par := o_par o |}.
+  o_tchain := o_tchain o; o_scal := o_scal o; o_jar := o_jar o; o_fact := o_fact o; o_par := o_par o; o_ext := o_ext o |}.
 Definition set_chain (o : obj) x := {| o_sl := o_sl o; o_mp := o_mp o; o_rt := o_rt o; o_chain := x;
-  o_tchain := o_tchain o; o_scal := o_scal o; o_jar := o_jar o; o_fact := o_fact o; o_par := o_par o |}.
+  o_tchain := o_tchain o; o_scal := o_scal o; o_jar := o_jar o; o_fact := o_fact o; o_par := o_par o; o_ext := o_ext o |}.
 Definition set_tchain (o : obj) x := {| o_sl := o_sl o; o_mp := o_mp o; o_rt := o_rt o; o_chain := o_chain o;
-  o_tchain := x; o_scal := o_scal o; o_jar := o_jar o; o_fact := o_fact o; o_par := o_par o |}.
+  o_tchain := x; o_scal := o_scal o; o_jar := o_jar o; o_fact := o_fact o; o_par := o_par o; o_ext := o_ext o |}.
 Definition set_scal (o : obj) x := {| o_sl := o_sl o; o_mp := o_mp o; o_rt := o_rt o; o_chain := o_chain o;
-  o_tchain := o_tchain o; o_scal := x; o_jar := o_jar o; o_fact := o_fact o; o_par := o_par o |}.
+  o_tchain := o_tchain o; o_scal := x; o_jar := o_jar o; o_fact := o_fact o; o_par := o_par o; o_ext := o_ext o |}.
 Definition set_jar (o : obj) x f := {| o_sl := o_sl o; o_mp := o_mp o; o_rt := o_rt o; o_chain := o_chain o;
-  o_tchain := o_tchain o; o_scal := o_scal o; o_jar := x; o_fact := f; o_par := o_par o |}.
+  o_tchain := o_tchain o; o_scal := o_scal o; o_jar := x; o_fact := f; o_par := o_par o; o_ext := o_ext o |}.
+
+Definition set_ext (o : obj) x := {| o_sl := o_sl o; o_mp := o_mp o; o_rt := o_rt o; o_chain := o_chain o;
+  o_tchain := o_tchain o; o_scal := o_scal o; o_jar := o_jar o; o_fact := o_fact o; o_par := o_par o; o_ext := x |}.
 
 Record state := { hp : heap; objs : list (oid * obj) }.
 Definition oget (id : oid) (l : list (oid * obj)) := aget oid_eqb id l.
@@ -194,6 +212,36 @@ Definition oset (id : oid) (o : obj) (l : list (oid * obj)) := aset oid_eqb id o
 
 Definition init_state : state :=
   {| hp := {| arrs := []; maps := []; recs := []; jars := [] |}; objs := [] |}.
+
+(* ---------- boxes ---------- *)
+(* in-place edits of a box: field assignment, append a client certificate, add a root to the pool
+   (x509.CertPool ignores a certificate it already holds) *)
+Inductive bedit := ESet (i : nat) (v : val) | ECert (v : val) | ERoot (v : val).
+
+Definition apply_edit (l : list val) (e : bedit) : list val :=
+  match e with
+  | ESet i v => upd_nth i v l
+  | ECert v => let n := nth 1 l 0 in let l' := upd_nth 1 (S n) l in firstn (2 + n) l' ++ [v] ++ skipn (2 + n) l'
+  | ERoot v => let n := nth 1 l 0 in if mem v (skipn (2 + n) l) then l else l ++ [v]
+  end.
+Definition apply_edits (es : list bedit) (l : list val) : list val := fold_left apply_edit es l.
+
+(* &tls.Config{NextProtos: ...}: not insecure, no certificates, no RootCAs *)
+Definition TLS0 : list val := [0; 0].
+(* newDefaultDumpOptions: Output = os.Stdout (token 1), the four content flags on, not async *)
+Definition DUMP0 : list val := [1; 1; 1; 1; 1; 0].
+
+Definition bx_read (J : list (list val)) (p : option nat) : option (list val) :=
+  match p with None => None | Some a => Some (nth a J []) end.
+(* the pointer after `if p == nil { p = &default }` *)
+Definition bx_get (J : list (list val)) (p : option nat) (dflt : list val) : list (list val) * nat :=
+  match p with Some a => (J, a) | None => (J ++ [dflt], length J) end.
+Definition bx_upd (J : list (list val)) (a : nat) (f : list val -> list val) : list (list val) :=
+  upd_nth a (f (nth a J [])) J.
+
+Definition set_dopt (e : oext) x := {| e_dopt := x; e_dumper := e_dumper e; e_tls := e_tls e |}.
+Definition set_dumper (e : oext) x := {| e_dopt := e_dopt e; e_dumper := x; e_tls := e_tls e |}.
+Definition set_tls (e : oext) x := {| e_dopt := e_dopt e; e_dumper := e_dumper e; e_tls := x |}.
 
 (* ---------- setters (shared by both levels) ---------- *)
 Inductive setter :=
@@ -209,7 +257,15 @@ Inductive setter :=
 | STWrap (vs : list val)                 (* Transport.WrapRoundTripFunc(vs...) *)
 | SJarFactory                            (* SetCookieJarFactory(f): fresh jar now and on every Clone *)
 | SJarPlain                              (* SetCookieJar(fresh jar): no factory - shared by later clones *)
-| SJarStore (ck : val).                  (* the jar records a cookie received by this client *)
+| SJarStore (ck : val)                   (* the jar records a cookie received by this client *)
+| SSliceSet (f : nat) (vs : list val)    (* x = vs (the variadic slice itself): SetHTTP2SettingsFrame, SetHTTP2PriorityFrames *)
+| STlsEdit (es : list bedit)             (* c.GetTLSClientConfig() then in-place edits: Enable/DisableInsecureSkipVerify, SetCerts, SetRootCertFromString *)
+| STlsNew (l : list val)                 (* SetTLSClientConfig(a fresh config) *)
+| SDumpAll                               (* EnableDumpAll: nothing when a Dumper runs, else EnableDump(c.getDumpOptions()) *)
+| SDumpEnable (es : list bedit)          (* o := c.getDumpOptions(); edits; c.EnableDumpAll(): EnableDumpAllTo, ...Async, ...WithoutX *)
+| SDumpDisable                           (* DisableDumpAll *)
+| SDumpSetOpts (l : list val)            (* SetCommonDumpOptions(a fresh *DumpOptions with an explicit Output) *)
+| SDumpTransport (l : list val).         (* c.GetTransport().EnableDump(a fresh *DumpOptions): a Dumper with options of its own *)
 
 (* c.getRetryOption(): lazily allocate the default record *)
 Definition get_retry (H : heap) (o : obj) : heap * obj * nat :=
@@ -293,15 +349,56 @@ Definition apply_setter (grow : nat -> nat -> nat) (H : heap) (o : obj) (s : set
       | None => (H, o)
       | Some j => (with_jars H (upd_nth j (nth j (jars H) [] ++ [ck]) (jars H)), o)
       end
+  | SSliceSet f vs =>
+      let '(A, s') := sl_lit (arrs H) vs in
+      (with_arrs H A, set_sl o (upd_nth f s' (o_sl o)))
+  | STlsEdit es =>
+      let '(J, a) := bx_get (jars H) (e_tls (o_ext o)) TLS0 in
+      (with_jars H (bx_upd J a (apply_edits es)), set_ext o (set_tls (o_ext o) (Some a)))
+  | STlsNew l =>
+      (with_jars H (jars H ++ [l]), set_ext o (set_tls (o_ext o) (Some (length (jars H)))))
+  | SDumpAll =>
+      match e_dumper (o_ext o) with
+      | Some _ => (H, o)
+      | None =>
+          let '(J, a) := bx_get (jars H) (e_dopt (o_ext o)) DUMP0 in
+          (with_jars H J, set_ext o (set_dumper (set_dopt (o_ext o) (Some a)) (Some a)))
+      end
+  | SDumpEnable es =>
+      let '(J, a) := bx_get (jars H) (e_dopt (o_ext o)) DUMP0 in
+      (* EnableDumpAll: a running Dumper is left alone, otherwise newDumper wraps the very same *DumpOptions *)
+      let d := match e_dumper (o_ext o) with Some b => Some b | None => Some a end in
+      (with_jars H (bx_upd J a (apply_edits es)), set_ext o (set_dumper (set_dopt (o_ext o) (Some a)) d))
+  | SDumpDisable => (H, set_ext o (set_dumper (o_ext o) None))
+  | SDumpSetOpts l =>
+      let a := length (jars H) in
+      let d := match e_dumper (o_ext o) with Some _ => Some a | None => None end in
+      (with_jars H (jars H ++ [l]), set_ext o (set_dumper (set_dopt (o_ext o) (Some a)) d))
+  | SDumpTransport l =>
+      (with_jars H (jars H ++ [l]), set_ext o (set_dumper (o_ext o) (Some (length (jars H)))))
   end.
 
 (* ---------- Clone ---------- *)
 (* per-field treatment in Client.Clone/Transport.Clone: true = deep copy, false = the clone keeps
    the original's reference.  Regenerated from the Go source into Gen/CloneTable.v *)
-Record ctbl := { t_sl : list bool; t_mp : list bool; t_rt : bool }.
-Definition deep_tbl : ctbl := {| t_sl := repeat true NSL; t_mp := repeat true NMP; t_rt := true |}.
-(* the code as pinned: roundTripWrappers (cc := *c) and httpRoundTripWrappers (copied header) shared *)
-Definition pinned_tbl : ctbl := {| t_sl := [true; false; false; true; true]; t_mp := repeat true NMP; t_rt := true |}.
+Record ctbl := {
+  t_sl : list bool; t_mp : list bool; t_rt : bool;
+  t_scal : list nat;       (* value-typed settings carried over to the clone *)
+  t_jar : bool;            (* Clone calls initCookieJar: a jar made by a factory is made anew *)
+  t_dopt : bool;           (* Client.dumpOptions cloned *)
+  t_dumper : bool;         (* Options.Clone clones the running Dumper (with its options) *)
+  t_link : bool;           (* Clone points the cloned Dumper at the clone's dumpOptions when the original's were wired *)
+  t_tls : bool }.          (* Options.Clone: TLSClientConfig.Clone() + own Certificates array + own RootCAs pool *)
+Definition NSCAL := 22.
+Definition SCAL_KEYS : list nat := seq 0 NSCAL.
+Definition deep_tbl : ctbl :=
+  {| t_sl := repeat true NSL; t_mp := repeat true NMP; t_rt := true; t_scal := SCAL_KEYS;
+     t_jar := true; t_dopt := true; t_dumper := true; t_link := true; t_tls := true |}.
+(* the code as pinned: roundTripWrappers (cc := *c) and httpRoundTripWrappers (copied header) shared,
+   the cloned Dumper not wired to the clone's dumpOptions *)
+Definition pinned_tbl : ctbl :=
+  {| t_sl := [true; false; false; true; true; true; true]; t_mp := repeat true NMP; t_rt := true; t_scal := SCAL_KEYS;
+     t_jar := true; t_dopt := true; t_dumper := true; t_link := false; t_tls := true |}.
 
 Fixpoint clone_sls (modes : list bool) (A : list (list val)) (l : list slice) : list (list val) * list slice :=
   match l with
@@ -334,6 +431,11 @@ Definition rt_clone (grow : nat -> nat -> nat) (H : heap) (r : option nat) : hea
        Some (length (recs H)))
   end.
 
+Definition bx_clone (J : list (list val)) (p : option nat) : list (list val) * option nat :=
+  match p with None => (J, None) | Some a => (J ++ [nth a J []], Some (length J)) end.
+Definition opn_eqb (a b : option nat) : bool :=
+  match a, b with Some x, Some y => x =? y | None, None => true | _, _ => false end.
+
 Definition clone_obj (grow : nat -> nat -> nat) (tbl : ctbl) (H : heap) (o : obj) : heap * obj :=
   (* the wrapper chains are rebuilt from the (possibly shared) slices as found at Clone time *)
   let rtw := sl_read (arrs H) (nth F_RTW (o_sl o) None) in
@@ -345,24 +447,41 @@ Definition clone_obj (grow : nat -> nat -> nat) (tbl : ctbl) (H : heap) (o : obj
   let H1 := with_maps (with_arrs H A1) M1 in
   let '(H2, rt) := if t_rt tbl then rt_clone grow H1 (o_rt o) else (H1, o_rt o) in
   (* initCookieJar: a factory makes a fresh jar, otherwise the http.Client copy keeps the pointer *)
-  let '(H3, jar) := if o_fact o then (with_jars H2 (jars H2 ++ [[]]), Some (length (jars H2))) else (H2, o_jar o) in
-  (H3, {| o_sl := sls; o_mp := mps; o_rt := rt; o_chain := chain; o_tchain := tchain;
-          o_scal := o_scal o; o_jar := jar; o_fact := o_fact o; o_par := o_par o |}).
+  let '(H3, jar) := if o_fact o && t_jar tbl then (with_jars H2 (jars H2 ++ [[]]), Some (length (jars H2))) else (H2, o_jar o) in
+  (* Options.Clone: TLSClientConfig *)
+  let '(J4, tls) := if t_tls tbl then bx_clone (jars H3) (e_tls (o_ext o)) else (jars H3, e_tls (o_ext o)) in
+  (* Client.dumpOptions, then the Dumper's options: the clone's own dumpOptions when the original's were
+     the ones its Dumper reads, a copy of the Dumper's otherwise *)
+  let '(J5, dopt) := if t_dopt tbl then bx_clone J4 (e_dopt (o_ext o)) else (J4, e_dopt (o_ext o)) in
+  let '(J6, dumper) :=
+    match e_dumper (o_ext o) with
+    | None => (J5, None)
+    | Some b =>
+        if t_link tbl && opn_eqb (e_dopt (o_ext o)) (Some b) then (J5, dopt)
+        else if t_dumper tbl then bx_clone J5 (Some b) else (J5, Some b)
+    end in
+  (with_jars H3 J6,
+   {| o_sl := sls; o_mp := mps; o_rt := rt; o_chain := chain; o_tchain := tchain;
+      o_scal := filter (fun kv => mem (fst kv) (t_scal tbl)) (o_scal o);
+      o_jar := jar; o_fact := o_fact o; o_par := o_par o;
+      o_ext := {| e_dopt := dopt; e_dumper := dumper; e_tls := tls |} |}).
 
 (* Client.R(): a request holding a clone of the client's retry option *)
 Definition new_req (grow : nat -> nat -> nat) (H : heap) (c : nat) (co : obj) : heap * obj :=
   let '(H1, rt) := rt_clone grow H (o_rt co) in
   (H1, {| o_sl := repeat None NSL; o_mp := repeat None NMP; o_rt := rt; o_chain := None; o_tchain := None;
-          o_scal := []; o_jar := None; o_fact := false; o_par := c |}).
+          o_scal := []; o_jar := None; o_fact := false; o_par := c; o_ext := oext0 |}).
 
 (* req.C(): afterResponse = []ResponseMiddleware{parseResponseBody, handleDownload} (tokens 100, 101),
    cookiejarFactory = memoryCookieJarFactory + initCookieJar *)
 Definition INTERNAL_AFTER : list val := [100; 101].
 Definition new_client (H : heap) : heap * obj :=
   let '(A, s) := sl_lit (arrs H) INTERNAL_AFTER in
-  (with_jars (with_arrs H A) (jars H ++ [[]]),
+  (* T(): TLSClientConfig = &tls.Config{NextProtos: ...} *)
+  (with_jars (with_arrs H A) (jars H ++ [[]; TLS0]),
    {| o_sl := upd_nth F_AFTER s (repeat None NSL); o_mp := repeat None NMP; o_rt := None; o_chain := None;
-      o_tchain := None; o_scal := []; o_jar := Some (length (jars H)); o_fact := true; o_par := 0 |}).
+      o_tchain := None; o_scal := []; o_jar := Some (length (jars H)); o_fact := true; o_par := 0;
+      o_ext := {| e_dopt := None; e_dumper := None; e_tls := Some (S (length (jars H))) |} |}).
 
 (* ---------- programs ---------- *)
 Inductive op :=
@@ -400,6 +519,11 @@ Definition run (grow : nat -> nat -> nat) (tbl : ctbl) (p : list op) (st : state
 Record vretry := { vr_max : val; vr_int : val; vr_conds : list val; vr_hooks : list val }.
 Definition vretry0 : vretry := {| vr_max := 0; vr_int := 0; vr_conds := []; vr_hooks := [] |}.
 
+(* the running Dumper: none, reading the client's own dumpOptions, or options of its own *)
+Inductive vdump := DOff | DLinked | DOwn (l : list val).
+Record vext := { x_dopt : option (list val); x_dumper : vdump; x_tls : option (list val) }.
+Definition vext0 : vext := {| x_dopt := None; x_dumper := DOff; x_tls := None |}.
+
 Record vobj := {
   v_sl : list (list val);
   v_mp : list mapcell;
@@ -409,7 +533,8 @@ Record vobj := {
   v_scal : list (val * val);
   v_jar : option (list val);
   v_fact : bool;
-  v_par : nat }.
+  v_par : nat;
+  v_ext : vext }.
 
 Definition rt_read (H : heap) (r : option nat) : vretry :=
   match r with
@@ -422,13 +547,22 @@ Definition rt_read (H : heap) (r : option nat) : vretry :=
 Definition jar_read (H : heap) (j : option nat) : option (list val) :=
   match j with None => None | Some a => Some (nth a (jars H) []) end.
 
+Definition abs_ext (J : list (list val)) (e : oext) : vext :=
+  {| x_dopt := bx_read J (e_dopt e);
+     x_dumper := match e_dumper e with
+                 | None => DOff
+                 | Some b => if opn_eqb (e_dopt e) (Some b) then DLinked else DOwn (nth b J [])
+                 end;
+     x_tls := bx_read J (e_tls e) |}.
+
 (* what an object looks like when read through its references *)
 Definition abs_obj (H : heap) (o : obj) : vobj :=
   {| v_sl := map (sl_read (arrs H)) (o_sl o);
      v_mp := map (mp_read (maps H)) (o_mp o);
      v_rt := rt_read H (o_rt o);
      v_chain := o_chain o; v_tchain := o_tchain o; v_scal := o_scal o;
-     v_jar := jar_read H (o_jar o); v_fact := o_fact o; v_par := o_par o |}.
+     v_jar := jar_read H (o_jar o); v_fact := o_fact o; v_par := o_par o;
+     v_ext := abs_ext (jars H) (o_ext o) |}.
 
 Definition view (st : state) (id : oid) : option vobj :=
   match oget id (objs st) with None => None | Some o => Some (abs_obj (hp st) o) end.
@@ -457,9 +591,10 @@ Definition merge_add (r c : mapcell) : mapcell :=
   map (fun kv => (fst kv, snd kv ++ nget_list (fst kv) c)) r
   ++ filter (fun kv => negb (mem (fst kv) (map fst r))) c.
 
-Definition SCAL_KEYS : list nat := [0; 1; 2; 3; 4; 5].
-
 Definition chain_list (c : option (list val)) : list val := match c with None => [] | Some l => rev l end.
+
+Definition scal_view (l : list (val * val)) : list val :=
+  map (fun k => match nget k l with Some v => v | None => 0 end) SCAL_KEYS.
 
 Definition describe (c r : vobj) : list (list val) :=
   [ flat_kv (merge_override (nth 0 (v_mp r) []) (nth 0 (v_mp c) []));      (* headers *)
@@ -474,20 +609,31 @@ Definition describe (c r : vobj) : list (list val) :=
     nth F_AFTER (v_sl c) [] ++ nth F_AFTER (v_sl r) [];                    (* afterResponse: client's, then request's *)
     [vr_max (v_rt r); vr_int (v_rt r)] ;
     vr_conds (v_rt r); vr_hooks (v_rt r);
-    map (fun k => match nget k (v_scal c) with Some v => v | None => 0 end) SCAL_KEYS ].
+    scal_view (v_scal c);
+    nth F_H2SET (v_sl c) [];                                               (* http2 SETTINGS frame *)
+    nth F_H2PRIO (v_sl c) [];                                              (* http2 PRIORITY frames *)
+    match x_dumper (v_ext c) with                                          (* what the client-level dump does *)
+    | DOff => [0]
+    | DLinked => 1 :: match x_dopt (v_ext c) with Some l => l | None => [] end
+    | DOwn l => 1 :: l
+    end;
+    match x_dopt (v_ext c) with None => [0] | Some l => 1 :: l end;        (* what the dump setters write *)
+    match x_dumper (v_ext c) with DLinked => [1] | _ => [0] end;
+    match x_tls (v_ext c) with None => [0] | Some l => 1 :: l end ].      (* TLS client config *)
 
 Definition vobj0 : vobj :=
   {| v_sl := repeat [] NSL; v_mp := repeat [] NMP; v_rt := vretry0; v_chain := None; v_tchain := None;
-     v_scal := []; v_jar := None; v_fact := false; v_par := 0 |}.
+     v_scal := []; v_jar := None; v_fact := false; v_par := 0; v_ext := vext0 |}.
 
 Definition vclient0 : vobj :=
   {| v_sl := upd_nth F_AFTER INTERNAL_AFTER (repeat [] NSL); v_mp := repeat [] NMP; v_rt := vretry0; v_chain := None;
-     v_tchain := None; v_scal := []; v_jar := Some []; v_fact := true; v_par := 0 |}.
+     v_tchain := None; v_scal := []; v_jar := Some []; v_fact := true; v_par := 0;
+     v_ext := {| x_dopt := None; x_dumper := DOff; x_tls := Some TLS0 |} |}.
 
 (* a fresh request of client c: empty but for the client's retry option, copied at R() *)
 Definition vnew_req (c : nat) (vc : vobj) : vobj :=
   {| v_sl := repeat [] NSL; v_mp := repeat [] NMP; v_rt := v_rt vc; v_chain := None; v_tchain := None;
-     v_scal := []; v_jar := None; v_fact := false; v_par := c |}.
+     v_scal := []; v_jar := None; v_fact := false; v_par := c; v_ext := vext0 |}.
 
 (* Exec of request r (reads the request and ITS client through their references) *)
 Definition exec (st : state) (r : nat) : option (list (list val)) :=
@@ -502,19 +648,26 @@ Definition probe (st : state) (c : nat) : option (list (list val)) :=
 
 (* ================= the naive value model: every object a plain value, Clone = copy ================= *)
 Definition vset_sl (o : vobj) x := {| v_sl := x; v_mp := v_mp o; v_rt := v_rt o; v_chain := v_chain o;
-  v_tchain := v_tchain o; v_scal := v_scal o; v_jar := v_jar o; v_fact := v_fact o; v_par := v_par o |}.
+  v_tchain := v_tchain o; v_scal := v_scal o; v_jar := v_jar o; v_fact := v_fact o; v_par := v_par o; v_ext := v_ext o |}.
 Definition vset_mp (o : vobj) x := {| v_sl := v_sl o; v_mp := x; v_rt := v_rt o; v_chain := v_chain o;
-  v_tchain := v_tchain o; v_scal := v_scal o; v_jar := v_jar o; v_fact := v_fact o; v_par := v_par o |}.
+  v_tchain := v_tchain o; v_scal := v_scal o; v_jar := v_jar o; v_fact := v_fact o; v_par := v_par o; v_ext := v_ext o |}.
 Definition vset_rt (o : vobj) x := {| v_sl := v_sl o; v_mp := v_mp o; v_rt := x; v_chain := v_chain o;
-  v_tchain := v_tchain o; v_scal := v_scal o; v_jar := v_jar o; v_fact := v_fact o; v_par := v_par o |}.
+  v_tchain := v_tchain o; v_scal := v_scal o; v_jar := v_jar o; v_fact := v_fact o; v_par := v_par o; v_ext := v_ext o |}.
 Definition vset_chain (o : vobj) x := {| v_sl := v_sl o; v_mp := v_mp o; v_rt := v_rt o; v_chain := x;
-  v_tchain := v_tchain o; v_scal := v_scal o; v_jar := v_jar o; v_fact := v_fact o; v_par := v_par o |}.
+  v_tchain := v_tchain o; v_scal := v_scal o; v_jar := v_jar o; v_fact := v_fact o; v_par := v_par o; v_ext := v_ext o |}.
 Definition vset_tchain (o : vobj) x := {| v_sl := v_sl o; v_mp := v_mp o; v_rt := v_rt o; v_chain := v_chain o;
-  v_tchain := x; v_scal := v_scal o; v_jar := v_jar o; v_fact := v_fact o; v_par := v_par o |}.
+  v_tchain := x; v_scal := v_scal o; v_jar := v_jar o; v_fact := v_fact o; v_par := v_par o; v_ext := v_ext o |}.
 Definition vset_scal (o : vobj) x := {| v_sl := v_sl o; v_mp := v_mp o; v_rt := v_rt o; v_chain := v_chain o;
-  v_tchain := v_tchain o; v_scal := x; v_jar := v_jar o; v_fact := v_fact o; v_par := v_par o |}.
+  v_tchain := v_tchain o; v_scal := x; v_jar := v_jar o; v_fact := v_fact o; v_par := v_par o; v_ext := v_ext o |}.
 Definition vset_jar (o : vobj) x f := {| v_sl := v_sl o; v_mp := v_mp o; v_rt := v_rt o; v_chain := v_chain o;
-  v_tchain := v_tchain o; v_scal := v_scal o; v_jar := x; v_fact := f; v_par := v_par o |}.
+  v_tchain := v_tchain o; v_scal := v_scal o; v_jar := x; v_fact := f; v_par := v_par o; v_ext := v_ext o |}.
+
+Definition vset_ext (o : vobj) x := {| v_sl := v_sl o; v_mp := v_mp o; v_rt := v_rt o; v_chain := v_chain o;
+  v_tchain := v_tchain o; v_scal := v_scal o; v_jar := v_jar o; v_fact := v_fact o; v_par := v_par o; v_ext := x |}.
+Definition xset_dopt (e : vext) x := {| x_dopt := x; x_dumper := x_dumper e; x_tls := x_tls e |}.
+Definition xset_dumper (e : vext) x := {| x_dopt := x_dopt e; x_dumper := x; x_tls := x_tls e |}.
+Definition xset_tls (e : vext) x := {| x_dopt := x_dopt e; x_dumper := x_dumper e; x_tls := x |}.
+Definition odflt (p : option (list val)) (d : list val) : list val := match p with Some l => l | None => d end.
 
 Definition vapply (o : vobj) (s : setter) : vobj :=
   match s with
@@ -552,6 +705,21 @@ Definition vapply (o : vobj) (s : setter) : vobj :=
   | SJarFactory => vset_jar o (Some []) true
   | SJarPlain => vset_jar o (Some []) false
   | SJarStore ck => match v_jar o with None => o | Some l => vset_jar o (Some (l ++ [ck])) (v_fact o) end
+  | SSliceSet f vs => vset_sl o (upd_nth f vs (v_sl o))
+  | STlsEdit es => vset_ext o (xset_tls (v_ext o) (Some (apply_edits es (odflt (x_tls (v_ext o)) TLS0))))
+  | STlsNew l => vset_ext o (xset_tls (v_ext o) (Some l))
+  | SDumpAll =>
+      match x_dumper (v_ext o) with
+      | DOff => vset_ext o (xset_dumper (xset_dopt (v_ext o) (Some (odflt (x_dopt (v_ext o)) DUMP0))) DLinked)
+      | _ => o
+      end
+  | SDumpEnable es =>
+      vset_ext o (xset_dumper (xset_dopt (v_ext o) (Some (apply_edits es (odflt (x_dopt (v_ext o)) DUMP0))))
+                              (match x_dumper (v_ext o) with DOff => DLinked | d => d end))
+  | SDumpDisable => vset_ext o (xset_dumper (v_ext o) DOff)
+  | SDumpSetOpts l =>
+      vset_ext o (xset_dumper (xset_dopt (v_ext o) (Some l)) (match x_dumper (v_ext o) with DOff => DOff | _ => DLinked end))
+  | SDumpTransport l => vset_ext o (xset_dumper (v_ext o) (DOwn l))
   end.
 
 (* deep copy; the wrapper chains are rebuilt from the wrapper lists; a factory jar starts empty *)
@@ -559,9 +727,9 @@ Definition vclone (o : vobj) : vobj :=
   {| v_sl := v_sl o; v_mp := v_mp o; v_rt := v_rt o;
      v_chain := match nth F_RTW (v_sl o) [] with [] => v_chain o | l => Some l end;
      v_tchain := match nth F_TRW (v_sl o) [] with [] => None | l => Some l end;
-     v_scal := v_scal o;
+     v_scal := filter (fun kv => mem (fst kv) SCAL_KEYS) (v_scal o);
      v_jar := if v_fact o then Some [] else v_jar o;
-     v_fact := v_fact o; v_par := v_par o |}.
+     v_fact := v_fact o; v_par := v_par o; v_ext := v_ext o |}.
 
 Definition vstate := list (oid * vobj).
 Definition vget (id : oid) (l : vstate) := aget oid_eqb id l.
